@@ -1,7 +1,10 @@
 (* Props/C03.v — property theorems for C03 (transaction atomicity); each closed by `exact` of
-   a lemma proved in EngineCrashProofs.v, with Print Assumptions beneath. *)
+   a lemma proved in EngineCrashProofs.v (crash / torn write / buffer / rollback) or
+   TxnAtomicProofs.v (concurrent readers, history checker, lock facts), with Print Assumptions
+   beneath. *)
 From Coq Require Import Sorted.
 From KV Require Import Bytes Spec Memtable WalCodec Engine EngineProofs EngineCrashProofs.
+From KV Require Import TxnAtomic TxnAtomicProofs.
 Open Scope N_scope.
 
 Theorem C03_crash_atomic : forall c ops q,
@@ -55,3 +58,118 @@ Theorem C03_rollback_no_trace : forall s ops,
   (forall s', tx_commit s ops = (s', WrOverflow) -> s' = s).
 Proof. exact EngineCrashProofs.C03_rollback_no_trace. Qed.
 Print Assumptions C03_rollback_no_trace.
+
+(* ---------- concurrent readers (TxnAtomic.v: one step per critical section) ---------- *)
+
+(* every Get, every read and scan of a read-only transaction returns the values after the
+   write-granular prefix of the acknowledged history that precedes the step: a batch is one
+   element of that history, so no reader step sees a strict subset of it *)
+Theorem C03_no_partial_view : forall c pre l post s1,
+  crun (cinit c) (pre ++ l :: post) = Some s1 ->
+  let H := twrites (cinit c) (pre ++ l :: post) in
+  let n := length (twrites (cinit c) pre) in
+  match l with
+  | LRead _ ks vs => vs = map (spec_get (firstn n (hwrites H))) ks
+  | LRoGet _ k v => v = spec_get (firstn n (hwrites H)) k
+  | LRoScan _ ks vs => vs = map (spec_get (firstn n (hwrites H))) ks
+  | _ => True
+  end.
+Proof. exact TxnAtomicProofs.no_partial_view. Qed.
+Print Assumptions C03_no_partial_view.
+
+(* a read-only transaction against transactional writers: no write is acknowledged while it is
+   open and all its reads (gets and scans) see one and the same prefix *)
+Theorem C03_ro_tx_snapshot : forall c r pre body post s1 lo hi,
+  crun (cinit c) (pre ++ LRoBegin r :: body ++ post) = Some s1 ->
+  Forall (tx_only r) body ->
+  (lo <= length (twrites (cinit c) pre) <= hi)%nat ->
+  twrites (cinit c) (pre ++ LRoBegin r :: body) = twrites (cinit c) pre /\
+  consistent (twrites (cinit c) (pre ++ LRoBegin r :: body ++ post))
+             (mkObs MSection lo hi (flat_map (sel_ro_all r) body)).
+Proof. exact TxnAtomicProofs.ro_tx_snapshot_consistent. Qed.
+Print Assumptions C03_ro_tx_snapshot.
+
+(* with writers that bypass the transaction lock (Engine.Put / ApplyBatch) in the mix: each Get
+   of the read-only transaction sees a prefix, and between two of them only such writes are
+   acknowledged — never a transaction commit *)
+Theorem C03_ro_tx_gets : forall c r pre body post s1 lo hi,
+  crun (cinit c) (pre ++ LRoBegin r :: body ++ post) = Some s1 ->
+  Forall (not_end r) body ->
+  (lo <= length (twrites (cinit c) pre))%nat ->
+  (length (twrites (cinit c) (pre ++ LRoBegin r :: body)) <= hi)%nat ->
+  consistent (twrites (cinit c) (pre ++ LRoBegin r :: body ++ post))
+             (mkObs MRoTx lo hi (flat_map (sel_ro r) body)).
+Proof. exact TxnAtomicProofs.ro_tx_consistent. Qed.
+Print Assumptions C03_ro_tx_gets.
+
+(* reads inside one shared section (a Get; a scan made while no write is in flight) *)
+Theorem C03_section_reads : forall c cl ks vs pre post s1 lo hi,
+  crun (cinit c) (pre ++ LRead cl ks vs :: post) = Some s1 ->
+  (lo <= length (twrites (cinit c) pre) <= hi)%nat ->
+  consistent (twrites (cinit c) (pre ++ LRead cl ks vs :: post))
+             (mkObs MSection lo hi (combine ks vs)).
+Proof. exact TxnAtomicProofs.section_consistent. Qed.
+Print Assumptions C03_section_reads.
+
+(* separate Gets of one client may straddle a commit, each is atomic, none goes back *)
+Theorem C03_client_reads : forall c cl pre body post s1 lo hi,
+  crun (cinit c) (pre ++ body ++ post) = Some s1 ->
+  (lo <= length (twrites (cinit c) pre))%nat ->
+  (length (twrites (cinit c) (pre ++ body)) <= hi)%nat ->
+  consistent (twrites (cinit c) (pre ++ body ++ post))
+             (mkObs MFree lo hi (flat_map (sel_client cl) body)).
+Proof. exact TxnAtomicProofs.client_consistent. Qed.
+Print Assumptions C03_client_reads.
+
+(* the extracted checker decides [consistent] exactly; with the theorems above: every
+   observation the system can produce is accepted, so a rejected recorded history is not a
+   behaviour of the model *)
+Theorem C03_atomic_check_correct : forall H o, atomic_check H o = true <-> consistent H o.
+Proof. exact TxnAtomicProofs.atomic_check_correct. Qed.
+Print Assumptions C03_atomic_check_correct.
+
+Theorem C03_lts_accepted_ro : forall c r pre body post s1 lo hi,
+  crun (cinit c) (pre ++ LRoBegin r :: body ++ post) = Some s1 ->
+  Forall (not_end r) body ->
+  (lo <= length (twrites (cinit c) pre))%nat ->
+  (length (twrites (cinit c) (pre ++ LRoBegin r :: body)) <= hi)%nat ->
+  atomic_check (twrites (cinit c) (pre ++ LRoBegin r :: body ++ post))
+               (mkObs MRoTx lo hi (flat_map (sel_ro r) body)) = true.
+Proof. exact TxnAtomicProofs.lts_accepted_ro. Qed.
+Print Assumptions C03_lts_accepted_ro.
+
+(* ---------- the critical sections, from the Go source (coq/gen/TxnLocks.v) ---------- *)
+Theorem C03_locks_applybatch_exclusive : Locks.applybatch_ok = true.
+Proof. exact TxnAtomicProofs.locks_applybatch_exclusive. Qed.
+Print Assumptions C03_locks_applybatch_exclusive.
+Theorem C03_locks_put_delete_exclusive : Locks.put_delete_ok = true.
+Proof. exact TxnAtomicProofs.locks_put_delete_exclusive. Qed.
+Theorem C03_locks_readers_shared : Locks.readers_ok = true.
+Proof. exact TxnAtomicProofs.locks_readers_shared. Qed.
+Theorem C03_locks_tx_commit_under_txlock : Locks.tx_ok = true.
+Proof. exact TxnAtomicProofs.locks_tx_commit_under_txlock. Qed.
+Print Assumptions C03_locks_tx_commit_under_txlock.
+
+(* ---------- observation (not a violation of C03): a scan that is already running is not
+   isolated from later writes by the memtable snapshot ---------- *)
+Theorem C03_obs_iter_sees_later_write : exists c ka kb kc v1 v2 s,
+  crun (cinit c)
+    [LApply [(ka, Some v1)]; LIterNew 0; LIterRead 0 kb None;
+     LApply [(kb, Some v2); (kc, Some v2)]; LIterRead 0 kc (Some v2)] = Some s /\
+  (exists s', crun (cinit c)
+    [LIterNew 0; LIterRead 0 kb None;
+     LApply [(kb, Some v2); (kc, Some v2)]; LIterRead 0 kc (Some v2)] = Some s').
+Proof. exact TxnAtomicProofs.iter_sees_later_write. Qed.
+Print Assumptions C03_obs_iter_sees_later_write.
+
+(* ---------- why D13 stays a known finding: no recovery procedure can repair it ---------- *)
+(* a committed {a,b} stopped cleanly and a committed {a,b,c} whose last log write was torn after
+   two entries leave the SAME disk state; any recovery returns the same for both *)
+Theorem C03_torn_needs_commit_marker : exists c opsA opsB n txA txB extra,
+  acked (init c) opsA = [WBatch txA] /\ acked (init c) opsB = [WBatch txB] /\
+  txB = txA ++ [extra] /\
+  lost_log (run c opsA) = false /\ lost_log (run c opsB) = false /\
+  crash_torn (run c opsB) n = crash (run c opsA) (wal_next (run c opsA)) /\
+  forall rec : st -> st, rec (crash_torn (run c opsB) n) = rec (crash (run c opsA) (wal_next (run c opsA))).
+Proof. exact TxnAtomicProofs.torn_needs_commit_marker. Qed.
+Print Assumptions C03_torn_needs_commit_marker.
